@@ -92,7 +92,7 @@ async fn build_env<'a>(pool: &'a KeyPool, seed: u64, cs: bool, thorough: bool) -
         msg: msgs.next(), sigs: valid_sigs(&[10]),
     };
     let online = Online { ts_sigs: valid_sigs(&[8]), snap_sigs: valid_sigs(&[9]), ts_expires: DAY, snap_expires: 3 * DAY };
-    let asm = assemble(&mut world, cs, 1, 1, &top, &[(0, role0)], Pin { length: true, hash: true }, &online, &mut msgs);
+    let asm = assemble(&mut world, cs, 1, 1, &top, &[(0, role0)], Pin { length: false, hash: true }, &online, &mut msgs);
     let cyc = ACycle { limits: ALimits::default(), safe: true, now: 0, server: asm.server, shipped: Some(root), reads: vec![] };
     let mem = Mem::new(usize::MAX);
     let mut labels = HashMap::new();
